@@ -585,6 +585,14 @@ func TestC03(t *testing.T) {
 			return &C03AllPerms{DT: rapid.SampledFrom([]string{"int16", "float64", "string"}).Draw(rt, "dt"), Shape: shape, Op: "T;T", L: Layout{Root: "rm"}}
 		})
 	}
+	// larger tensors whose element counts sit around multiples of 64 (64k-1, 64k, 64k+1): the physical
+	// transpositions keep per-element bookkeeping in machine words
+	for _, op := range []string{"pkgTranspose", "T+Transpose"} {
+		op := op
+		cell(t, "C03", "C03.allperms", "allperms/"+op+"/word-boundaries", nCases(4, 60), func(rt *rapid.T) Case {
+			return genWordBoundaryTranspose(rt, op)
+		})
+	}
 	for _, op := range []string{"T", "SafeT", "pkgTranspose", "T+Transpose"} {
 		for rank := 2; rank <= maxRank; rank++ {
 			op, rank := op, rank
@@ -659,4 +667,30 @@ func (c *C03AllPerms) Run() string {
 	}
 	rec.ClassN("permutations", n)
 	return ""
+}
+
+// genWordBoundaryTranspose: a physical transposition of a tensor whose element count sits at 64k-1, 64k or 64k+1.
+func genWordBoundaryTranspose(rt *rapid.T, op string) Case {
+	total := rapid.SampledFrom([]int{63, 64, 65, 127, 128, 129, 191, 192, 193, 255, 256, 257, 321, 385, 513, 1025}).Draw(rt, "total")
+	var shape []int
+	rest := total
+	for len(shape) < 2 && rest > 1 {
+		var divs []int
+		for dd := 2; dd < rest; dd++ {
+			if rest%dd == 0 {
+				divs = append(divs, dd)
+			}
+		}
+		if len(divs) == 0 {
+			break
+		}
+		dd := rapid.SampledFrom(divs).Draw(rt, "div")
+		shape = append(shape, dd)
+		rest /= dd
+	}
+	shape = append(shape, rest)
+	if len(shape) == 1 {
+		shape = []int{shape[0], 1} // a prime count: a column
+	}
+	return &C03AllPerms{DT: rapid.SampledFrom([]string{"int8", "int16", "float32", "float64", "complex128", "string"}).Draw(rt, "dt"), Shape: shape, Op: op, L: Layout{Root: "rm"}}
 }
